@@ -377,12 +377,22 @@ def run_case(case, fail, stats):
         env = Env(case["vals"])
         del env.box["o"]           # plain picklable containers only
         outs = []
+        nested = bool(case.get("nested"))
+        if nested:
+            env.box["g"] = [None] * len(case["defs"])      # several definitions write into one enclosing container
+
+        def target_set(root, i, value):
+            if nested:
+                root["g"][i] = value
+            else:
+                root["out%d" % i] = value
+
         for i, t in enumerate(case["defs"]):
-            nm = "out%d" % i
-            env.box[nm] = None
-            r1 = outcome(lambda: env.r.__setitem__(nm, env.build(t)) if isinstance(env.build(t), R.BaseRef) else (_ for _ in ()).throw(ValueError()))
+            if not nested:
+                env.box["out%d" % i] = None
+            r1 = outcome(lambda: target_set(env.r, i, env.build(t)) if isinstance(env.build(t), R.BaseRef) else (_ for _ in ()).throw(ValueError()))
             if r1[0] == "ok":
-                outs.append((nm, t))
+                outs.append((i, t))
         stats["mgrpickle_cases"] += 1
         back = outcome(lambda: pickle.loads(pickle.dumps(env.m)))
         if back[0] != "ok":
@@ -396,20 +406,56 @@ def run_case(case, fail, stats):
             fail("C12", "restored-manager-fails-verify", {"defs": case["defs"], "exc": vv[1]})
         r2 = m2.containers["r"]
         box2 = r2._owner
+        env2 = Env.__new__(Env)
+        env2.__dict__.update(env.__dict__)
+        env2.m, env2.r, env2.box = m2, r2, box2
+        if "f" in m2.containers:
+            env2.f = m2.containers["f"]
+
+        def assign(e, name, vj):
+            if isinstance(vj, dict) and "term" in vj:
+                value = e.build(vj["term"])
+            else:
+                value = val_py(vj)
+            if isinstance(name, list):
+                target_set(e.r, name[1], value)
+            else:
+                e.r[name] = value
+
+        def affected(e):
+            out = {}
+            for nm in NAMES:
+                out[nm] = sorted(str(x) for x in e.m.find_deps([e.r[nm]]))
+            return out
+
         for name, vj in case.get("follow", []):
             before1 = snapshot(env.box)
-            u2 = outcome(lambda: r2.__setitem__(name, val_py(vj)))
+            u2 = outcome(lambda: assign(env2, name, vj))
             if snapshot(env.box) != before1:
                 fail("C12", "copy-affects-original", {"defs": case["defs"], "assign": name})
-            u1 = outcome(lambda: env.r.__setitem__(name, val_py(vj)))
+            u1 = outcome(lambda: assign(env, name, vj))
             if u1[0] != u2[0] or (u1[0] == "exc" and u1[1] != u2[1]):
                 fail("C12", "copies-raise-differently", {"defs": case["defs"], "assign": name, "original": u1, "copy": u2})
                 break
             if u1[0] != "ok":
                 break
+            stats["mgrpickle_followups"] = stats.get("mgrpickle_followups", 0) + 1
             if snapshot(env.box) != snapshot(box2):
                 fail("C12", "copies-diverge", {"defs": case["defs"], "assign": name,
                                                 "original": snapshot(env.box), "copy": snapshot(box2)})
+                break
+            v1, v2 = outcome(lambda: quiet(env.m.verify)), outcome(lambda: quiet(m2.verify))
+            if v1[0] == "ok" and v2[0] != "ok":
+                fail("C12", "restored-manager-fails-verify-after-assignments", {"defs": case["defs"], "nested": nested,
+                                                                                   "follow": case["follow"], "exc": v2[1]})
+                break
+            if m2.dump() != env.m.dump():
+                fail("C12", "manager-definitions-differ-after-assignments", {"defs": case["defs"], "follow": case["follow"]})
+                break
+            a1, a2 = outcome(lambda: affected(env)), outcome(lambda: affected(env2))
+            if a1 != a2:
+                fail("C12", "restored-manager-computes-other-dependants", {"defs": case["defs"], "nested": nested, "follow": case["follow"],
+                                                                             "original": a1[1], "copy": a2[1]})
                 break
     elif kind == "eqhash":
         m = xdeps.Manager()
@@ -836,8 +882,21 @@ def cases_c12(rng, n):
         else:
             defs = [gen_term(rng, rng.randint(1, 3)) for _ in range(rng.randint(1, 4))]
             defs = [d for d in defs if "attr" not in json.dumps(d)]
-            yield {"kind": "mgrpickle", "vals": vals, "defs": defs,
-                   "follow": [[rng.choice(NAMES), gen_val(rng, rng.choice(["int", "float"]))] for _ in range(rng.randint(1, 3))]}
+            nested = rng.random() < 0.5
+            follow = []
+            for _ in range(rng.randint(1, 4)):
+                r = rng.random()
+                if r < 0.5:
+                    follow.append([rng.choice(NAMES), gen_val(rng, rng.choice(["int", "float"]))])
+                else:
+                    i = rng.randrange(len(defs)) if defs else 0
+                    tgt = ["g", i] if nested else "out%d" % i
+                    if r < 0.8:
+                        follow.append([tgt, gen_val(rng, rng.choice(["int", "float"]))])       # a definition overwritten by a value
+                    else:
+                        follow.append([tgt, {"term": gen_term(rng, rng.randint(1, 2))}])         # ... or by another definition
+            if defs:
+                yield {"kind": "mgrpickle", "vals": vals, "defs": defs, "nested": nested, "follow": follow}
 
 
 KEYS = ["a", "b", "ab", "a'b", 'a"b', "a]", "[a", "a.b", "a['b']", "c['a']", "é", "a b", "\\", "a\\'", "0", "1", "-1", "1.5", "",
